@@ -123,6 +123,12 @@ def main(argv=None):
     outdir = os.path.join(os.environ.get('VERIF_OUT') or os.path.join(env.VERIF, 'out'), 'replay', prop)
     for key, v in sorted(tot['violations'].items()):
         entry = known.get(key)
+        if entry is not None and entry.get('status') == 'known' and entry.get('max_rate') is not None \
+                and v['count'] > max(3, entry['max_rate'] * max(1, tot['evaluations'])):
+            # the listed finding is a rare race; the same symptom far more often is a different defect
+            key = key + '/far-more-often-than-the-listed-race'
+            v = dict(v, key=key, what=f'{v["what"]} [{v["count"]}x in {tot["evaluations"]} runs; the listed finding occurs at a rate <= {entry["max_rate"]}]')
+            entry = None
         if entry is not None and entry.get('status') == 'known':
             known_seen.append(key)
             lines.append(f'KNOWN-FINDING: property={prop} {key}: {entry.get("what", v["what"])} (seen {v["count"]}x)')
